@@ -528,7 +528,11 @@ fn run_inner(case: &SchedCase, obs: &mut dyn Observer, dir: &str, tail: Option<T
                     }
                 }
                 if let Op::Reopen(newcfg) = &step.op {
-                    if faulty {
+                    // After a failed fdatasync the store lives on (the worker reports the error and keeps serving), so a
+                    // restart is an ordinary continuation: what was written is still there for the next instance, durable or
+                    // not. Other faults (a write error ends the worker, a failed creation may have cut a batch) end the history.
+                    let only_sync_faults = case.faults.iter().all(|f| f.kind == Sk::Sync);
+                    if faulty && !(only_sync_faults && !r.worker_dead) {
                         stop_reason = "restart skipped after injected fault".into();
                         r.steps.push(StepRec { ev_begin, ev_end: trace::ev_count(), writes_before: wb, writes_after: r.recs.len(), outcome });
                         break;
